@@ -1959,6 +1959,36 @@ def header_keys(rng):
     return cases
 
 
+SLICE_TEXTS = ["[1,2,3]", "[]", " [ 1 , 2 ] ", "null", "[null]", "[1,null]", "[[1]]", "[[]]", "5", "\"a\"", "true", "", " ", "[", "[1,", "[1 2]",
+               "[\"a\",\"b\"]", "[\"1\",\"2\"]", "[true,false]", "[1.5]", "[1e2]", "[300]", "[-1]", "[01]", "[1,]", "[a]", "[1] x", "[1]]",
+               "[\"\"]", "[\"a b\"]", "[0]", "[1,\"2\",true]", "nul", "[nul]", "[-0]", "[1.0]", "[+1]", "[\"nan\"]", "[\"NaN\"]", "[\"1e400\"]"]
+
+
+def slice_strings(rng):
+    """a string (path variable, single header value, JSON string) given to a slice field is read as
+    a JSON array by another routine than a supplied array: no null elements, no nested arrays,
+    elements converted at the element's own kind"""
+    cases = []
+    elems = [P("int"), P("string"), P("float64"), P("bool"), P("int8"), P("uint"), Ptr(P("int")), Ptr(P("bool")), Ptr(Ptr(P("bool"))),
+             Ptr(P("string")), Sl(P("int")), Mp(P("int")), St(F("x", P("int"), O(opt=True)))]
+    modes = ["path", "header", "json", "key", "httpx-path", "httpx-header", "okey", "jsonmap"]
+    n = 0
+    for e in elems:
+        for txt in SLICE_TEXTS:
+            n += 1
+            mode = modes[n % len(modes)]
+            if txt == "" and mode == "httpx-header":
+                pass
+            for o in ((None, O(opt=True)) if n % 4 == 0 else (None,)):
+                fa = F("a", Sl(copy.deepcopy(e)), copy.deepcopy(o))
+                cases.append(finish({"mode": mode, "type": St(fa), "doc": dobj([("a", ds(txt))]), "intent": "slice-string"}))
+    # a json.Number for a slice field is read the same way (and never is an array)
+    for e in (P("int"), P("string")):
+        for mode in ("json", "key"):
+            cases.append(finish({"mode": mode, "type": St(F("a", Sl(e))), "doc": dobj([("a", dn("5"))]), "intent": "slice-string"}))
+    return cases
+
+
 def depchains(rng):
     """optional=dep / optional=!dep chains and cycles over three fields, self-dependencies,
     dependencies on keys that no field has, on dotted keys, on "-"; every subset of supplied fields"""
@@ -2299,6 +2329,7 @@ class C08(Property):
             cases += zeros(rng)
             cases += slice_defaults(rng)
             cases += depchains(rng)
+            cases += slice_strings(rng)
             cases += header_keys(rng)
             cases += ctypes(rng)
         cases += boundaries(rng, 380 if not big else 6000)
